@@ -27,6 +27,9 @@ Report(av, dr, b) ==
   l + 1 > Len(Trace) =>
      PrintT(<<"TRACE-RESULT", ToJson([lines |-> Len(Trace), viol |-> av, drift |-> dr, branches |-> [x \in DOMAIN b |-> b[x]]])>>)
 
+\* life-cycle scenarios do not wait for frames: nothing about frames is judged on their lines
+Judged(ln) == ~("nowait" \in DOMAIN ln /\ ln.nowait)
+
 FrameOf(ln) == [i \in 1..Len(ln.frame) |-> <<ln.frame[i][1], ln.frame[i][2], ln.frame[i][3]>>]
 
 TraceStart ==
@@ -34,11 +37,12 @@ TraceStart ==
   /\ LET c == Cfgs[Line.c].cfg
          s0 == InitState(c)
          fj == FrameJudgement(c, Cfgs[Line.c].colors, Cfgs[Line.c].layout, s0, {}, FrameOf(Line), <<>>)
-         bad == (IF Line.led_active THEN {<<n, l>> : n \in fj.fail} ELSE {<<"C17_LedActive", l>>})
+         bad == IF ~Judged(Line) THEN {}
+                ELSE (IF Line.led_active THEN {<<n, l>> : n \in fj.fail} ELSE {<<"C17_LedActive", l>>})
      IN /\ cfg' = c /\ st' = s0 /\ out' = <<>> /\ lastIn' = [ev |-> "init"] /\ lastBr' = "Init"
         /\ snd' = {} /\ ccv' = <<>> /\ pb' = <<>> /\ pairAt' = <<>> /\ apairAt' = <<>> /\ pos' = <<>>
         /\ lastTx' = <<>> /\ hap' = [on |-> FALSE, keys |-> {}, axonly |-> TRUE] /\ viol' = {}
-        /\ ext' = {} /\ seen' = fj.seen /\ lay' = Cfgs[Line.c].layout /\ colr' = Cfgs[Line.c].colors
+        /\ ext' = {} /\ seen' = (IF Judged(Line) THEN fj.seen ELSE <<>>) /\ lay' = Cfgs[Line.c].layout /\ colr' = Cfgs[Line.c].colors
         /\ allviol' = allviol \cup bad
         /\ Report(allviol \cup bad, drift, brs)
   /\ l' = l + 1 /\ UNCHANGED <<drift, brs>>
@@ -57,8 +61,9 @@ TraceKey ==
         /\ LET e2 == IF r.br = "Panic" THEN {} ELSE ext
                fj == FrameJudgement(cfg, colr, lay, r.s, e2, FrameOf(Line), seen)
                nv == allviol \cup {<<n, l>> : n \in viol'}
-                     \cup (IF Line.led_active THEN {<<n, l>> : n \in fj.fail} ELSE {<<"C17_LedActive", l>>})
-           IN /\ ext' = e2 /\ seen' = fj.seen /\ allviol' = nv /\ brs' = Inc(brs, r.br)
+                     \cup (IF ~Judged(Line) THEN {}
+                           ELSE IF Line.led_active THEN {<<n, l>> : n \in fj.fail} ELSE {<<"C17_LedActive", l>>})
+           IN /\ ext' = e2 /\ seen' = (IF Judged(Line) THEN fj.seen ELSE seen) /\ allviol' = nv /\ brs' = Inc(brs, r.br)
               /\ drift' = drift \cup (IF Conforms(Line.o, r) THEN {} ELSE {<<l, "output">>})
               /\ Report(nv, drift', brs')
   /\ l' = l + 1 /\ UNCHANGED <<lay, colr>>
@@ -68,11 +73,11 @@ TraceMidiIn ==
   /\ LET e2 == MidiInNext(ext, Line.msgin)
          fj == FrameJudgement(cfg, colr, lay, st, e2, FrameOf(Line), seen)
          cleared == (Len(Line.msgin) = 3 /\ (IsOff(Line.msgin) \/ (IsOn(Line.msgin) /\ Line.msgin[3] = 0)))
-         nv == allviol \cup (IF Line.led_active
+         nv == allviol \cup (IF ~Judged(Line) THEN {} ELSE IF Line.led_active
                                THEN {<<(IF n = "C17_NoteKeys" /\ cleared THEN "C17_ExternalCleared" ELSE n), l>> : n \in fj.fail}
                                ELSE {<<"C17_LedActive", l>>})
                        \cup (IF Line.o = <<>> THEN {} ELSE {<<"C16_NoCrossTalk", l>>})
-     IN /\ ext' = e2 /\ seen' = fj.seen /\ allviol' = nv /\ brs' = Inc(brs, "MidiIn")
+     IN /\ ext' = e2 /\ seen' = (IF Judged(Line) THEN fj.seen ELSE seen) /\ allviol' = nv /\ brs' = Inc(brs, "MidiIn")
         /\ Report(nv, drift, brs')
   /\ l' = l + 1 /\ UNCHANGED <<vars, drift, lay, colr>>
 
@@ -84,7 +89,7 @@ TraceDisconnect ==
         /\ LET nv == allviol \cup {<<n, l>> : n \in viol'}
                      \cup (IF Line.return_ms <= 2000 THEN {} ELSE {<<"C16_PromptTermination", l>>})
                      \cup (IF "leftover" \notin DOMAIN Line \/ Line.leftover = <<>> THEN {} ELSE {<<"C16_NoLeftover", l>>})
-                     \cup (IF AllRed(FrameOf(Line)) /\ Len(Line.frame) = Len(lay) THEN {} ELSE {<<"C17_FinalRed", l>>})
+                     \cup (IF ~Judged(Line) \/ (AllRed(FrameOf(Line)) /\ Len(Line.frame) = Len(lay)) THEN {} ELSE {<<"C17_FinalRed", l>>})
            IN /\ allviol' = nv /\ brs' = Inc(brs, r.br)
               /\ drift' = drift \cup (IF Conforms(Line.o, r) THEN {} ELSE {<<l, "output">>})
               /\ Report(nv, drift', brs')
